@@ -171,6 +171,8 @@ def run(ctx, which="C02"):
         ctx.case(("gen_pi", s, nxl, nxr, D) if not empty else None)
         if _flat(pq) != m:
             ctx.mismatch("gen_point_interval", case, pq, m)
+        if (s, nxl, nxr, D) == (4, 5, 4, -9):
+            ctx.sample({"generated_code_case": case, "real_point_interval": pq, "extracted_generated": m})
         widths = [nxl] + [nxl - 1] * (s - 1)
         if nxr == widths[D % s]:
             bad = pi_oracle(s, nxl, widths, D, D % s, pq)
@@ -212,7 +214,7 @@ def run(ctx, which="C02"):
             for gname, fid, method in (("cv_masked_loop", 3, "sad"), ("sad_ssd_loop", 5, "ssd"), ("census_loop", 6, "census"),
                                        ("zncc_loop", 7, "zncc")):
                 ro = roles.get(gname)
-                if ro is None:
+                if ro is None or (method == "census" and w < 3):      # census accepts windows 3 and 5 only
                     continue
                 mc = mcpkg.AbstractMatchingCost(matching_cost_method=method, window_size=w, subpix=s)
                 rs = shift_right_img(right, s, None)
@@ -286,11 +288,15 @@ def run(ctx, which="C02"):
                             if bool(tst[r, c]) != (not gmin[r, c] * s <= D <= gmax[r, c] * s):
                                 ctx.violation("interval_test", f"cv_masked: sample {D}/{s} is {'masked' if tst[r, c] else 'kept'} "
                                               f"at a pixel whose interval is [{int(gmin[r, c])}, {int(gmax[r, c])}]", case)
+    sampled = False
     for (case, got), m in zip(impl, model.batch(jobs)):
         ctx.count("gen_statement_iterations")
         ctx.traces += 1
         ctx.case(("gen_st", case["function"], case["subpix"], case["nx_left"], case["D"]))
         if got != m:
             ctx.mismatch("gen_" + case["function"], case, got, m)
+        if (case["function"], case["subpix"], case["D"]) == ("zncc_loop", 2, -3) and not sampled:
+            sampled = True
+            ctx.sample({"generated_code_case": case, "translated_statements_on_real_objects": got, "extracted_generated": m})
     ctx.stats["gen_translated_statements_executed"] = nstat
     ctx.stats["gen_model_calls"] = model.calls
